@@ -149,6 +149,11 @@ def evaluate(ctx, prop, scheds, m, mf, stats, tag):
                 C.violation(ctx, st, "the client process was killed by its receive loop (%s) while results were being "
                             "delivered [schedule %s/%s]" % (st, tag, s.idx),
                             dict(replay, oracle="direct", expected="every call returns its own result", got=st))
+        elif st.startswith("stuck") and s.extra.get("broken") == "true":
+            # a probe got past the send lock earlier in this schedule: from then on the scheduler's idea of who holds
+            # which lock is void, a stall is its own artefact; the finding is the probe (model disagreement) and
+            # whatever the direct oracles say about the frames
+            stats["stalls_after_a_probe_got_through_(not_reported)"] += 1
         elif st.startswith("stuck"):
             C.violation(ctx, st, "deadlock or stall: an operation the scheduler knew to be enabled did not complete within the "
                         "watchdog (%s) [schedule %s/%s]" % (st, tag, s.idx),
@@ -293,7 +298,9 @@ def run_prop(ctx, prop, n_quick, n_thorough):
 TRUSTED = [
     "harness/root/refserver (in-process reference server for a keyed session; envelope via the repository's aes_ige in the server "
     "direction, bodies via the repository's tl package) and harness/root/csched + cmd/c09 (controlled scheduler, trace recorder, direct oracles)",
-    "the scheduler's notion of 'enabled' = Go semantics of sync.Mutex (free/held), unbuffered channel rendezvous, blocking socket read",
+    "the scheduler's notion of 'enabled' = Go semantics of sync.Mutex (free/held), unbuffered channel rendezvous, blocking socket read; "
+    "'blocked on the send lock' = no arrival within 40 ms after release from 'prelock' while another sender is inside sendPacket",
+    "clock regimes are set by writing MTProto.lastMsgID through reflection (equivalent to one earlier clock reading that far ahead)",
     "coq/extract/C09/driver.ml (label parser, projection printer, two-caller enumerator)",
     "loopback TCP delivers bytes in order; goroutine scheduling is fair; the 65 s read deadline and the 60 s pinger never fire "
     "inside a schedule (runs last milliseconds)",
@@ -320,7 +327,12 @@ def finish(ctx, prop, pr, stats, validated, disagreements, distinct, samples, ex
          "rule": "schedules are drawn while they run: at every point one of the enabled actions (start a call of a random result kind, "
                  "release one parked goroutine, let the server answer a random non-empty subset of the received requests in random order as "
                  "plain message / gzip_packed / msg_container with optional service items, send an unsolicited service message) is chosen by a "
-                 "splitmix64 stream seeded with VERIF_SEED; 1-4 callers with 1-2 calls each. Thorough adds every maximal history of two callers "
+                 "splitmix64 stream seeded with VERIF_SEED; 1-4 callers with 1-2 calls each. Each random schedule runs in one clock regime: lastMsgID untouched (0), 4 below now, or one minute / one hour AHEAD of the wall clock "
+                 "(then every send of the run - calls, pings issued through objects.Ping like the pinger does, the receive loop's msgs_ack - sees a clock "
+                 "reading not above the last id; the model is then given the harness's own clock reading and must reach the observed id by its bump); "
+                 "a third of the schedules also PROBE the send lock: a sender parked at 'prelock' is released while another one (caller or receive "
+                 "loop) is parked between 'idgen' and its return; it must not come back within the probe time-out (model: step refused), gets the lock "
+                 "when the holder returns, and if it does come back it is driven to write first (wire order oracle). Thorough adds every maximal history of two callers "
                  "enumerated by the extracted model. Each action's projected observation (who is parked where, frame written: kind / seq_no / "
                  "msg_id mod 4 / above-previous, value returned) must equal the extracted step's. Non-trivial = distinct schedule in which a "
                  "call completed and there were >= 2 callers or a container or gzip. " + rule_extra,
